@@ -267,3 +267,41 @@ pub mod c16text {
         out
     }
 }
+
+// C18 controls: a resolver that (R1) returns an un-normalised join on one path, (R2) keeps '.' segments and
+// lets '..' through without removing anything, (R3) uses "" both for "no importer" and as a directory
+pub mod c18 {
+    pub struct ModulePath(pub String);
+    impl ModulePath {
+        pub fn is_bare(s: &str) -> bool { !s.starts_with('/') && !s.starts_with("./") && !s.starts_with("..") }
+        pub fn parent(&self) -> Option<&str> { self.0.rfind('/').and_then(|i| self.0.get(..i)) }
+        pub fn resolve(specifier: &str, base: Option<&ModulePath>) -> ModulePath {
+            if Self::is_bare(specifier) {
+                return ModulePath(specifier.to_string());
+            }
+            if specifier.starts_with('/') {
+                return ModulePath(specifier.to_string());
+            }
+            let dir = base.and_then(|b| b.parent()).unwrap_or("");
+            let joined = if dir.is_empty() { specifier.to_string() } else { format!("{}/{}", dir, specifier) };
+            ModulePath(Self::normalize_path(&joined))
+        }
+        fn normalize_path(path: &str) -> String {
+            if !path.contains('.') {
+                return path.to_string();
+            }
+            let mut kept: Vec<&str> = Vec::new();
+            for segment in path.split('/') {
+                if segment == "" {
+                    continue;
+                }
+                if segment == ".." {
+                    kept.push(segment);
+                    continue;
+                }
+                kept.push(segment);
+            }
+            kept.join("/")
+        }
+    }
+}
